@@ -85,6 +85,10 @@ def lookalike_groups():
         [FV([nan[0]]), FV([nan[1]]), FV([nan[2]]), N("[NaN]")],
         [BV([True, False]), N("[TRUE,FALSE]")],
         [IV([]), BV([]), FV([]), N("[]"), I("[]")],
+        # items whose text is empty or begins / ends with blank characters: the listing is trimmed as a whole only
+        [N(""), I(""), N(" "), N("  ")],
+        [N(" a"), N("a "), N("a"), I("a")],
+        [L(N(""), Z(1)), L(N(" "), Z(1)), L(Z(1), N(""))],
     ]
     return g
 
